@@ -764,6 +764,16 @@ def check_C04(tier, seed):
             W, doms = _world_and_doms(rng, nv, quick)
             qs = [mk_query(rng.choice(pool), doms), mk_query(rng.choice(progs[nv]), doms)]
             qc.add(W, qs, _session_events(b, 2), share_vars=rng.random() < 0.7)
+    # pairs of queries over three shared variables that compare variables directly (h == c.ref): what one evaluation
+    # binds must not be visible to the next evaluation of another query over the same variables
+    shared = run.export("GenQuery", "G3s", "PROG", constants=dict(G="G3s", NV=3, LeafLimit=8, MaxLeaves=2, MaxNot=0, NeedNot=False),
+                        count=False)
+    shared = [p for p in shared if p["cond"]["k"] != "true"]
+    for _ in range(1500 if quick else 30000):
+        W, doms = _world_and_doms(rng, 3, quick)
+        qs = [mk_query(rng.choice(shared), doms), mk_query(rng.choice(shared), doms)]
+        first = rng.choice([drain_ev(1), {"op": "partial", "qi": 1, "k": rng.randint(1, 2), "how": "close"}])
+        qc.add(W, qs, [first, drain_ev(2), drain_ev(1), drain_ev(2)], share_vars=True, tag="shared3")
     # duplicate-listing domains: the first and every later evaluation agree
     for _ in range(150 if quick else 2000):
         p = rng.choice(progs[1])
